@@ -34,7 +34,7 @@ CLAIMS = {
    "DESIGN.md section 4 C19, E8"),
  "C13": ("other",
    "def-use and dominance analysis on go/ssa of both sides of the status file: constants with the polarity of the writer's bool parameter vs. the reader's switch cases and what each case feeds into the device-policy variable; must-pass (post-dominance) search in do-approve",
-   "Decides the structural core: writer and reader agree on every status constant and its meaning (success accepted with its policy, failure not accepted, UPTODATE accepted, DIFF lists, sticky DIFF with the approved-since exception, compare consulted only when later than the accepted approve); the reader cannot abort and lists the zero value; all parts (code, ipv6, raw, bz2) are compared; in do-approve every path after the session updates the status and writes END:, and FAILED/return 1 derive exactly from the session result. Not decided: sufficiency of the two-slot encoding over all histories.",
+   "Decides the structural core: writer and reader agree on every status constant and its meaning (success accepted with its policy, failure not accepted, UPTODATE accepted, DIFF lists, sticky DIFF with the approved-since exception, compare consulted only when later than the accepted approve); the reader cannot abort and lists the zero value; all parts (code, ipv6, raw, bz2) are compared; in do-approve every path after the session updates the status and writes END:, and FAILED/return 1 derive exactly from the session result; the recorded policy is a parameter of the status writer and derives from the same resolution of `current` as the code file handed to the session. Not decided: sufficiency of the two-slot encoding over all histories.",
    "Trusted: go/ssa; shared struct type makes field names agree. Histories, clocks and file removal are runtime matters.",
    "DESIGN.md section 4 C13"),
  "C09": ("other",
@@ -44,37 +44,37 @@ CLAIMS = {
    "DESIGN.md section 4 C09, E6"),
  "C15": ("other",
    "typestate / ordering rules by dominance and reachability on go/ssa of package ios (who-may-call of the change sender over the call graph, stores to the reloadActive flag, def-use chain banner-strip -> echo check, accumulation of the re-arm flag)",
-   "Decides the structural core on every run: every IOS change command is sent by the one sender whose call sites are all dominated by arming the reload and a deferred cancel; configuration mode lies inside the guard; write memory is a plain call after the guarded function returned (cancel has run), nothing is sent in between; reloadActive is raised/lowered only where reload in N / reload cancel are sent; banners are stripped before the echo check; the one-minute verdict derives from the stripped banner and is accumulated over both halves of a joined command and triggers the re-arm. One genuine defect found by this rule was repaired (fix: 6536eea). Not decided: all byte offsets of an asynchronous banner.",
+   "Decides the structural core on every run: every IOS change command is sent by the one sender whose call sites are all dominated by arming the reload and a deferred cancel; configuration mode lies inside the guard; write memory is a plain call after the guarded function returned (cancel has run), nothing is sent in between; reloadActive is raised/lowered only where reload in N / reload cancel are sent; banners are stripped before the echo check; the one-minute verdict derives from the stripped banner and is accumulated over both halves of a joined command and triggers the re-arm; the device's answer to both halves of every change command decides over the abort on every path (the verdict is not overwritten), so write memory is not reached after a rejected command. One genuine defect found by this rule was repaired (fix: 6536eea). Not decided: all byte offsets of an asynchronous banner.",
    "Trusted: go/ssa, call graph; banner forms are those bannerRe matches.",
    "DESIGN.md section 4 C15"),
  "C03": ("other",
-   "field-access sets on go/ssa over call-graph closures (change-state agreement R-HC, object-kind completeness R-FC), inter-procedural string-pattern evaluation of every emitted PAN-OS command (escaping)",
-   "Only the structural part of convergence is decided: the change list stored by GetChanges is what HasChanges/ShowChanges/ApplyCommands read; MergeSpoc merges every object kind of a vsys (rules, addresses, address-groups, services, service-groups) and the transfer/remove phases visit all four object kinds; every non-constant part of an emitted command is URL-escaped. Convergence of the rule/member diff itself (executing the commands on an XML tree) is NOT decided — that needs a device model. Two genuine defects found by these rules were repaired (fix: e7da768, 904a6b3).",
+   "field-access sets on go/ssa over call-graph closures (change-state agreement R-HC, object-kind completeness R-FC), inter-procedural string-pattern evaluation of every emitted PAN-OS command (escaping), guard-set tables for decision sites and for every store into a planner mark, accumulator-growth rule, loop-carried-state (header phi) audit",
+   "Only the structural part of convergence is decided: the change list stored by GetChanges is what HasChanges/ShowChanges/ApplyCommands read; MergeSpoc merges every object kind of a vsys (rules, addresses, address-groups, services, service-groups) and the transfer/remove phases visit all four object kinds; every non-constant part of an emitted command is URL-escaped; the unique-name decisions and every store into the marks needed / nameOnDevice keep their audited controlling conditions; collected commands are never truncated or dropped; no unaudited state crosses loop iterations. Convergence of the rule/member diff itself (executing the commands on an XML tree) is NOT decided — that needs a device model. Two genuine defects found by these rules were repaired (fix: e7da768, 904a6b3).",
    "Trusted: go/ssa, call graph. Explicitly not covered: Myers-diff position logic, incremental-vs-replace heuristic, group reuse.",
    "DESIGN.md section 4 C03-C05"),
  "C04": ("other",
-   "field-access sets on go/ssa over call-graph closures (R-HC, R-FC) for package nsx",
-   "Only the structural part of convergence is decided: change-state agreement between GetChanges, HasChanges, ShowChanges and ApplyCommands; MergeSpoc merges policies, groups and services and the planner reads all three kinds of both configurations. Convergence of rule/group equalisation is NOT decided (needs executing the REST calls on a manager model).",
+   "field-access sets on go/ssa over call-graph closures (R-HC, R-FC) for package nsx; guard-set tables for decision sites and for every store into a planner mark; accumulator-growth rule; loop-carried-state audit",
+   "Only the structural part of convergence is decided: change-state agreement between GetChanges, HasChanges, ShowChanges and ApplyCommands; MergeSpoc merges policies, groups and services and the planner reads all three kinds of both configurations; unique-id generation and every store into needed / nameOnDevice keep their audited controlling conditions (a device group is taken over only if not already needed); collected requests are never dropped; no unaudited state crosses loop iterations. Convergence of rule/group equalisation is NOT decided (needs executing the REST calls on a manager model).",
    "Trusted: go/ssa, call graph.",
    "DESIGN.md section 4 C03-C05"),
  "C05": ("other",
-   "field-access sets on go/ssa incl. trigger sub-fields of the struct-valued change (R-HC), R-FC for package linux",
-   "Only the structural part is decided: every sub-field of the change that ApplyCommands acts on (routes, iptables) is read by HasChanges and ShowChanges — necessary for 'no change is reported only for an equivalent device' and invisible to drc FILE1 FILE2 tests; MergeSpoc and diffConfig handle both iptables and routes. Normaliser equivalence and route replacement semantics are NOT decided.",
+   "field-access sets on go/ssa incl. trigger sub-fields of the struct-valued change (R-HC), R-FC for package linux; guard-set table for the route decisions; loop-carried-state (header phi) audit of the parsers",
+   "Only the structural part is decided: every sub-field of the change that ApplyCommands acts on (routes, iptables) is read by HasChanges and ShowChanges — necessary for 'no change is reported only for an equivalent device' and invisible to drc FILE1 FILE2 tests; MergeSpoc and diffConfig handle both iptables and routes; the route delete/replace decisions keep their audited conditions; in the iptables/route parsers no unaudited variable keeps its value from one loop iteration to the next (a per-option flag without reset changes what is compared). Normaliser equivalence and route replacement semantics are NOT decided.",
    "Trusted: go/ssa, call graph.",
    "DESIGN.md section 4 C03-C05"),
  "C07": ("other",
    "guard-set analysis (all controlling conditions of a site, normalised, from go/ssa dominance) compared with an audited table; inter-procedural string-pattern evaluation of PAN-OS commands; guard check of the NSX load filter",
-   "Decides named necessary conditions of the frame property: NSX objects enter the model only under HasPrefix(id, \"Netspoc\"); every PAN-OS command's xpath is rooted at /config/devices/entry[..]/vsys/entry[..] of the targeted vsys; the Cisco protection sites (markNeeded for unknown interfaces / unmanaged VRFs, deletion-candidate test, the walk protecting everything an unmanaged object references, deletion only when unreferenced, no change for aaa-server / ldap attribute-map / interface, routes deleted only where the target has routes) are controlled by exactly their audited conditions. The whole-device frame condition for arbitrary unmanaged content is NOT decided.",
+   "Decides named necessary conditions of the frame property: NSX objects enter the model only under HasPrefix(id, \"Netspoc\"); every PAN-OS command's xpath is rooted at /config/devices/entry[..]/vsys/entry[..] of the targeted vsys; the Cisco protection sites (markNeeded for unknown interfaces / unmanaged VRFs, deletion-candidate test, the walk protecting everything an unmanaged object references, deletion only when unreferenced, no change for aaa-server / ldap attribute-map / interface, routes deleted only where the target has routes) are controlled by exactly their audited conditions, and every store into the marks needed / ready / toDelete of package cisco lies at an audited site. The whole-device frame condition for arbitrary unmanaged content is NOT decided.",
    "Trusted: go/ssa, call graph, the audited guard sets of tables/guards.tsv (each row with its reason).",
    "DESIGN.md section 4 C07"),
  "C08": ("other",
    "ordered-phase rules by reachability within loop iterations on go/ssa; who-may-call and store enumeration for config-mode bookkeeping; constant agreement; string-pattern evaluation (must-pass-sanitiser); guard-set table",
-   "Decides necessary conditions of 'executable when sent': create-before-use and delete-after-last-use phase orders in the PAN-OS, NSX and Cisco planners; every emission goes through the helpers that maintain the configuration mode (two audited exceptions followed by a helper); the IOS numbering constants (resequence step, multipliers, insert bound) are one integer; every non-constant part of a PAN-OS command is URL-escaped; the deletion-dependency conditions are the audited ones. Referential validity of a concrete script is NOT decided.",
+   "Decides necessary conditions of 'executable when sent': create-before-use and delete-after-last-use phase orders in the PAN-OS, NSX and Cisco planners; every emission goes through the helpers that maintain the configuration mode (two audited exceptions followed by a helper); the IOS numbering constants (resequence step, multipliers, insert bound) are one integer; every non-constant part of a PAN-OS command is URL-escaped; the deletion-dependency conditions are the audited ones; every store into a planner mark (PAN-OS, NSX, Cisco) lies at an audited site with its audited conditions (marks decide which objects are created before the rules that use them); no unaudited loop-carried state in the Cisco parser/planner. Referential validity of a concrete script is NOT decided.",
    "Trusted: go/ssa, call graph, audited guard rows.",
    "DESIGN.md section 4 C08, Appendix B"),
  "C14": ("other",
-   "ordered-phase rules by reachability within loop iterations on go/ssa (insert/move before reverse before delete; resequence first/last; routes add before delete; sort before compare); store-vs-use phase rule for the IOS block marking",
-   "Decides the order skeleton that the safety argument rests on: in both ACL planners every insert/move precedes the reversal of the delete list, which precedes every delete, and the reversed list is the one walked; IOS resequence brackets all numbered commands; the block-id marking is complete before any move decision; route inserts/replacements precede deletes for Cisco and Linux, routes are sorted more-specific-first before comparison. Packet-level verdicts of intermediate ACLs are NOT decided.",
+   "ordered-phase rules by reachability within loop iterations on go/ssa (insert/move before reverse before delete; resequence first/last; routes add before delete; sort before compare); store-vs-use phase rule for the IOS block marking; value-shape rule for joined delete+add lines; single-pass fill rule for the delete/insert lists; loop-carried-state audit",
+   "Decides the order skeleton that the safety argument rests on: in both ACL planners every insert/move precedes the reversal of the delete list, which precedes every delete, and the reversed list is the one walked; IOS resequence brackets all numbered commands; the block-id marking is complete before any move decision; route inserts/replacements precede deletes for Cisco and Linux, routes are sorted more-specific-first before comparison; moves and same-destination route replacements are one joined line; the delete list (and the ASA insert list) is filled in one pass over the ascending diff ranges, so reversing it is bottom-up. Packet-level verdicts of intermediate ACLs are NOT decided.",
    "Trusted: go/ssa, call graph.",
    "DESIGN.md section 4 C14, Appendix B"),
  "C18": ("other",
@@ -89,7 +89,7 @@ CLAIMS = {
    "DESIGN.md section 4 C17, E4"),
  "C20": ("other",
    "enumeration of crash obligations: explicit panics (go/ssa), the bounds checks the Go compiler's prove pass cannot eliminate (-d=ssa/check_bce with a build overlay, both toolchains in the thorough tier) mapped to AST expressions and compared as a multiset with an audit table, nil-guard dominance rule for nillable sources, type-assertion audit, acyclicity of the reference graph read from the cmdInfo literals",
-   "Does NOT prove crash-freedom. It decides, on every run, that every potential crash site in the code that handles input files is either proved safe by the compiler, covered by a written invariant in an audit table (with machine checks for the NSX singleton invariant, the compile-time tables, guards on captured slices), or an explicitly listed known finding (31 today, each reproduced with drc; two more were repaired by fix: commits) — so that a new unproven index expression, a removed guard, a new panic, a new unguarded nillable dereference or a reference cycle cannot appear unnoticed.",
+   "Does NOT prove crash-freedom. It decides, on every run, that every potential crash site in the code that handles input files is either proved safe by the compiler, covered by a written invariant in an audit table (with machine checks for the NSX singleton invariant — that the validity check runs on every parse and that it rejects an empty list for each of the four fields —, the compile-time tables, guards on captured slices), or an explicitly listed known finding (31 today, each reproduced with drc; two more were repaired by fix: commits) — so that a new unproven index expression, a removed guard, a new panic, a new unguarded nillable dereference or a reference cycle cannot appear unnoticed.",
    "Trusted: soundness of the Go compiler's bounds-check elimination; go/ssa; the invariants I1..I6 written in tables/bounds_audit.tsv. Hangs are covered only for the recursive walkers (R20.5).",
    "DESIGN.md section 4 C20, E5"),
 }
